@@ -206,16 +206,19 @@ def build_model_runner():
     p = sh(["timeout", "600", "coqc"] + args + [os.path.join("..", "Extraction.v")], cwd=mldir)
     if p.returncode != 0:
         return False, p.stdout + p.stderr
-    shutil.copy(os.path.join(COQ, "extract", "modelrun.ml"), os.path.join(mldir, "modelrun.ml"))
-    new = _hash_file(os.path.join(mldir, "Model.ml")) + _hash_file(os.path.join(mldir, "modelrun.ml"))
+    exdir = os.path.join(COQ, "extract")
+    mls = ["conv.ml", "registry.ml"] + sorted(f for f in os.listdir(exdir) if f.startswith("cmds_") and f.endswith(".ml")) + ["modelrun.ml"]
+    new = _hash_file(os.path.join(mldir, "Model.ml"))
+    for f in mls:
+        shutil.copy(os.path.join(exdir, f), os.path.join(mldir, f))
+        new += _hash_file(os.path.join(mldir, f))
     stamp = os.path.join(mldir, ".built")
     if os.path.exists(os.path.join(TOOLS, "modelrun")) and os.path.exists(stamp) and open(stamp).read() == new:
         return True, ""
-    p = sh(["ocamlfind", "ocamlopt", "-O2", "-w", "-a", "-package", "unix", "-linkpkg", "Model.mli", "Model.ml", "modelrun.ml",
-            "-o", os.path.join(TOOLS, "modelrun")], cwd=mldir)
+    base = ["ocamlfind", "ocamlopt", "-w", "-a", "-package", "unix", "-linkpkg", "Model.mli", "Model.ml"] + mls + ["-o", os.path.join(TOOLS, "modelrun")]
+    p = sh(base[:2] + ["-O2"] + base[2:], cwd=mldir)
     if p.returncode != 0:
-        p = sh(["ocamlfind", "ocamlopt", "-w", "-a", "-package", "unix", "-linkpkg", "Model.mli", "Model.ml", "modelrun.ml",
-                "-o", os.path.join(TOOLS, "modelrun")], cwd=mldir)
+        p = sh(base, cwd=mldir)
     if p.returncode != 0:
         return False, p.stdout + p.stderr
     open(stamp, "w").write(new)
